@@ -1,0 +1,17 @@
+//go:build verif
+
+package message
+
+import "github.com/PelicanPlatform/classad/classad"
+
+// Verification hooks for property C09 (add-only, build tag verif): thin
+// exports of the unexported attribute filters.
+
+func VerifFilterAttributesByPrivacy(attrs []string, excludePrivate, excludePrivateV2 bool, encryptedAttrs []string) []string {
+	return filterAttributesByPrivacy(attrs, excludePrivate, excludePrivateV2, encryptedAttrs)
+}
+
+func VerifFilterAttributesByWhitelist(allAttrs []string, ad *classad.ClassAd, whitelist []string,
+	excludePrivate, excludePrivateV2 bool, encryptedAttrs []string, options PutClassAdOptions) []string {
+	return filterAttributesByWhitelist(allAttrs, ad, whitelist, excludePrivate, excludePrivateV2, encryptedAttrs, options)
+}
